@@ -39,6 +39,7 @@ static inline bool parseFullUInt(const char *b, const char *e, int base, uint64_
   *out = v;
   return true;
 }
+static inline bool iora_pfu_sv(const iora_sv *s, size_t a, size_t b, int base, uint64_t *out) { return parseFullUInt(s->p + a, s->p + b, base, out); }
 #else
 #define PF_R __CPROVER_return_value
 bool iora_pfu_env(size_t len, size_t off, char c0, char c1, _Bool gd_in, _Bool gd_dig, _Bool gb_in, _Bool gb_dig, int base, uint64_t *out)
@@ -54,16 +55,18 @@ bool iora_pfu_env(size_t len, size_t off, char c0, char c1, _Bool gd_in, _Bool g
   /* ghost record */
   __CPROVER_ensures(G_pfu_calls == (__CPROVER_old(G_pfu_calls) >= 2 ? 2 : __CPROVER_old(G_pfu_calls) + 1) && G_pfu_off == off && G_pfu_len == len)
   __CPROVER_ensures(G_pfu_ok == PF_R && (PF_R ==> G_pfu_val == *out));
-static inline bool parseFullUInt(const char *b, const char *e, int base, uint64_t *out)
+/* call-site form `parseFullUInt(s.data() + a, s.data() + b, base, out)` (declared rule pfu-sv): index based, so that no
+ * pointer difference / pointer offset reaches the solver (measured: 31 M clauses with the pointer form, 2 M with indices) */
+static inline bool iora_pfu_sv(const iora_sv *s, size_t a, size_t b, int base, uint64_t *out)
 {
-  IORA_ASSERT(__CPROVER_same_object(b, e) && b <= e, "parseFullUInt: [b,e) is a range inside one string");
-  size_t len = (size_t)(e - b);
-  char c0 = len > 0 ? b[0] : (char)0;
-  char c1 = len > 1 ? b[1] : (char)0;
+  IORA_ASSERT(a <= b && b <= s->n, "parseFullUInt: [b,e) is a range inside the string");
+  size_t len = b - a;
+  char c0 = len > 0 ? s->p[a] : (char)0;
+  char c1 = len > 1 ? s->p[a + 1] : (char)0;
   _Bool gd_in = GD < len, gb_in = GB < len;
-  _Bool gd_dig = gd_in ? DG_IS(b[GD], base) : 0;
-  _Bool gb_dig = gb_in ? DG_IS(b[GB], base) : 0;
-  return iora_pfu_env(len, (size_t)__CPROVER_POINTER_OFFSET(b), c0, c1, gd_in, gd_dig, gb_in, gb_dig, base, out);
+  char cd = gd_in ? s->p[a + GD] : (char)0;
+  char cb = gb_in ? s->p[a + GB] : (char)0;
+  return iora_pfu_env(len, a, c0, c1, gd_in, gd_in && DG_IS(cd, base), gb_in, gb_in && DG_IS(cb, base), base, out);
 }
 #endif
 
